@@ -692,7 +692,7 @@ func (p *Parser) parseSelectStatement() (ast.Statement, error) {
 			}
 
 			// Check for table alias
-			if p.isIdentifier() || p.isType(models.TokenTypeAs) {
+			if (p.isIdentifier() && !p.atReturningWord()) || p.isType(models.TokenTypeAs) {
 				if p.isType(models.TokenTypeAs) {
 					p.advance() // Consume AS
 					if !p.isIdentifier() {
@@ -1109,7 +1109,7 @@ func (p *Parser) parseFromTableReference() (ast.TableReference, error) {
 	}
 
 	// Check for table alias (required for derived tables, optional for regular tables)
-	if p.isIdentifier() || p.isType(models.TokenTypeAs) {
+	if (p.isIdentifier() && !p.atReturningWord()) || p.isType(models.TokenTypeAs) {
 		if p.isType(models.TokenTypeAs) {
 			p.advance() // Consume AS
 			if !p.isIdentifier() {
